@@ -135,6 +135,12 @@ fn build_value(n: &Node, t: &mut Tape, st: &mut Stats) -> Value {
                     arr
                 }
             };
+            let mut arr = arr;
+            // a style flag a builder may set on any array, the empty one included
+            if t.chance(1, 6) {
+                arr.set_trailing_comma(true);
+                st.class(if arr.is_empty() { "array.trailing-comma.empty" } else { "array.trailing-comma" });
+            }
             Value::Array(arr)
         }
         Node::Table(tb) => {
